@@ -315,7 +315,7 @@ func (r *LayerManager) release(ctx context.Context, refspec reference.Spec, tocD
 	i := r.refcounter[refspec.String()][tocDigest.String()]
 	if i <= 0 {
 		// No reference to this layer. release it.
-		delete(r.refcounter, tocDigest.String())
+		delete(r.refcounter[refspec.String()], tocDigest.String())
 		if len(r.refcounter[refspec.String()]) == 0 {
 			delete(r.refcounter, refspec.String())
 			delete(r.resolveLayerCache, refspec.String()) // no reference to this image. So reset the resolve status as well.
@@ -329,6 +329,8 @@ func (r *LayerManager) release(ctx context.Context, refspec reference.Spec, tocD
 		}
 		l.Done()
 		delete(r.layer[refspec.String()], tocDigest.String())
+		// This layer needs to be resolved again on the next lookup.
+		delete(r.resolveLayerCache[refspec.String()], l.Info().Digest.String())
 		if len(r.layer[refspec.String()]) == 0 {
 			delete(r.layer, refspec.String())
 		}
